@@ -20,6 +20,13 @@ use ironcalc_base::Model;
 use std::cell::RefCell;
 use std::collections::HashMap;
 
+fn rng_for(seed: u64, salt: u64) -> Rng {
+    let mut z = (seed ^ salt.wrapping_mul(0x9E3779B97F4A7C15)).wrapping_add(0x632BE59BD9B4E019);
+    z = (z ^ (z >> 30)).wrapping_mul(0xBF58476D1CE4E5B9);
+    z = (z ^ (z >> 27)).wrapping_mul(0x94D049BB133111EB);
+    Rng::new(z ^ (z >> 31))
+}
+
 thread_local! {
     static MODEL: RefCell<Model<'static>> = RefCell::new(Model::new_empty("c34", "en", "UTC", "en").unwrap());
 }
@@ -115,7 +122,7 @@ fn cursors(rng: &mut Rng, len: usize, all: bool, sink: &mut dyn FnMut(usize, usi
 }
 
 fn formulas(ctx: &Ctx, salt: u64) -> Vec<String> {
-    let mut rng = Rng::new(ctx.seed ^ salt);
+    let mut rng = rng_for(ctx.seed, salt);
     let mut out: Vec<String> = vec![
         "=A1", "=a1", "=$A$1", "=A1+B2", "=SUM(A1,B2)", "=A1:B2", "=$A1:B$2", "=1:1", "=A:A", "=Sheet1!A1", "='My Sheet'!A1:B2", "=A1 B2",
         "A1", "", "=", "=1+2", "=\"A1\"", "='it''s'!$A$1+'it''s'!b2", "=SUM(1:1,A:A)", "= A1", "=A1 ", "=é+A1", "=A1+é1", "=😀",
@@ -136,7 +143,7 @@ fn formulas(ctx: &Ctx, salt: u64) -> Vec<String> {
 // ---------------------------------------------------------------------------------------------
 
 fn gen_step(ctx: &Ctx, sink: &mut dyn FnMut(String)) {
-    let mut rng = Rng::new(ctx.seed ^ 0x34);
+    let mut rng = rng_for(ctx.seed, 0x34);
     for f in formulas(ctx, 0xF4) {
         let len = f.chars().count();
         let all = len <= 14;
@@ -192,7 +199,7 @@ fn eval_step(req: &str) -> ImplOut {
 // ---------------------------------------------------------------------------------------------
 
 fn gen_period(ctx: &Ctx, sink: &mut dyn FnMut(String)) {
-    let mut rng = Rng::new(ctx.seed ^ 0x3434);
+    let mut rng = rng_for(ctx.seed, 0x3434);
     for f in formulas(ctx, 0xF4F4) {
         let len = f.chars().count();
         let all = len <= 16;
